@@ -418,3 +418,29 @@ V("C10", "expected-strip", "fire", "C10.R4", "expected_data strips row 0 also wh
   (PDFF, "        if self.batch_size is None:\n            return newresults[0]\n        return newresults", "        return newresults[0]"))
 V("C10", "constraint-no-flatten", "fire", "C10.R2", "poisson constraint batched arm does not flatten",
   (CON, "            flat_pars = tensorlib.reshape(pars, (-1,))\n        nuispars", "            flat_pars = pars\n        nuispars"))
+
+# ------------------------------------------------------------------ C16
+V("C16", "sorted-in-place", "fire", "C16.R1", "sorted() sorts the input workspace in place",
+  (WSF, "        newspec = copy.deepcopy(dict(workspace))\n", "        newspec = dict(workspace)\n"))
+V("C16", "join-items-no-copy", "fire", "C16.R1", "_join_items extends the primary list in place",
+  (WSF, "    joined_items = copy.deepcopy(primary_items)\n", "    joined_items = primary_items\n"))
+V("C16", "prune-plain-dict", "fire", "C16.R2", "_prune_and_rename returns the plain dict",
+  (WSF, "        return Workspace(newspec)\n\n    def prune(", "        return newspec\n\n    def prune("))
+V("C16", "obs-none-check-removed", "fire", "C16.R3", "observations name clash no longer refused under join=none",
+  (WSF, "        if common_observations:\n            raise exceptions.InvalidWorkspaceOperation(", "        if common_observations:\n            log.warning("))
+V("C16", "channels-intersection-self", "fire", "C16.R3", "channel clash test compares left with left",
+  (WSF, "        common_channels = {c['name'] for c in left_channels}.intersection(\n            c['name'] for c in right_channels\n        )", "        common_channels = {c['name'] for c in left_channels}.intersection(\n            c['name'] for c in left_channels if False\n        )"))
+V("C16", "combine-sections-swapped", "fire", "C16.R3", "combine joins observations with the measurements helper arguments swapped",
+  (WSF, "            join, left['observations'], right['observations']\n", "            join, left['observations'], left['observations']\n"))
+V("C16", "poi-not-renamed", "fire", "C16.R4", "POI not renamed with the modifier",
+  (WSF, "                        'poi': rename_modifiers.get(\n                            measurement['config']['poi'], measurement['config']['poi']\n                        ),", "                        'poi': measurement['config']['poi'],"))
+V("C16", "obs-not-renamed", "fire", "C16.R4", "observations keep the old channel name",
+  (WSF, "                    name=rename_channels.get(observation['name'], observation['name']),", "                    name=observation['name'],"))
+V("C16", "params-not-pruned", "fire", "C16.R4", "pruned modifier keeps its parameter config",
+  (WSF, "                            for parameter in measurement['config']['parameters']\n                            if parameter['name'] not in prune_modifiers\n", "                            for parameter in measurement['config']['parameters']\n"))
+V("C16", "prune-args-crossed", "fire", "C16.R4", "prune forwards samples as channels",
+  (WSF, "            prune_samples=samples,\n            prune_channels=channels,", "            prune_samples=channels,\n            prune_channels=samples,"))
+V("C16", "sort-modifiers-by-name-only", "fire", "C16.R5", "modifiers sorted by name only",
+  (WSF, "sample['modifiers'].sort(key=lambda e: (e['name'], e['type']))", "sample['modifiers'].sort(key=lambda e: e['name'])"))
+V("C16", "sorted-copy-alias", "silent", "", "sorted uses deepcopy via an alias",
+  (WSF, "        newspec = copy.deepcopy(dict(workspace))\n", "        payload = dict(workspace)\n        newspec = copy.deepcopy(payload)\n"))
